@@ -8,11 +8,11 @@ open Ldk
     propositions -/
 macro "gen_norm" "at" h:ident : tactic =>
   `(tactic| simp only [tipIsCommon, tipIsBetter, fdFound, fdWalkPrevious, fdWalkCurrent, syncDisconnects, partialAdvance,
-      isGenesisHeader, initDisconnects, initTakesLonger, initDelivers, locatorHeightDiff, locatorHeight, chkSub,
+      isGenesisHeader, initDelivers, locatorHeightDiff, locatorHeight, chkSub,
       decide_eq_true_eq, ge_iff_le, gt_iff_lt, ne_eq, decide_not, Bool.not_eq_true'] at $h:ident)
 macro "gen_norm" : tactic =>
   `(tactic| simp only [tipIsCommon, tipIsBetter, fdFound, fdWalkPrevious, fdWalkCurrent, syncDisconnects, partialAdvance,
-      isGenesisHeader, initDisconnects, initTakesLonger, initDelivers, locatorHeightDiff, locatorHeight, chkSub,
+      isGenesisHeader, initDelivers, locatorHeightDiff, locatorHeight, chkSub,
       decide_eq_true_eq, ge_iff_le, gt_iff_lt, ne_eq, decide_not, Bool.not_eq_true'])
 
 /-! ### tree look-up and well-formedness -/
@@ -585,7 +585,7 @@ theorem sync_chain {s : Source} (hw : wfTree s.tree = true) {c : Cache} (hc : Ca
       obtain ⟨f1, f2, f3, f4, f5, f6⟩ :=
         connectBlocks_fold hw hn d.connected.reverse d.common (cacheBlocksDisconnected c false d.common) req1 hc1 hpath
       subst eo
-      simp only [ne_eq, hd, not_false_eq_true, decide_true, if_true, List.singleton_append]
+      simp only [ne_eq, hd, not_false_eq_true, decide_true, if_true, List.singleton_append, discNotif, disconnectLocator]
       have htip : syncTip (if (connectBlocks s d.connected.reverse d.common (cacheBlocksDisconnected c false d.common) req1).ok = true
           then SyncRes.ok
           else SyncRes.errAt (connectBlocks s d.connected.reverse d.common (cacheBlocksDisconnected c false d.common) req1).tip) new old
@@ -876,18 +876,35 @@ theorem resolveLocator_spec {s : Source} (hw : wfTree s.tree = true) {b : Hdr} (
         · exact ih c (req + 1) found c1 r hc (fun d' h' x hm => hanc d' h' x (List.mem_cons_of_mem _ hm)) e
 
 /-- what the first loop of synchronize_listeners establishes for one listener -/
-def ListenerOk (t : Tree) (best : Hdr) (mostLen : Nat) (bl : Hdr × Locator) (p : Option Hdr × List Notif) : Prop :=
-  ∃ common dconn, p.1 = some common ∧ InTree t common ∧ anc t best = dconn ++ anc t common ∧
+def ListenerOk (t : Tree) (best : Hdr) (mostLen : Nat) (bl : Hdr × Locator) (p : List Nat × List Notif) : Prop :=
+  ∃ common dconn, p.1 = [common.height] ∧ InTree t common ∧ anc t best = dconn ++ anc t common ∧
     dconn.length ≤ mostLen ∧ applyNotifs t (anc t bl.1) p.2 = some (anc t common) ∧
     common ∈ anc t bl.1 ∧ p.2 = (if common = bl.1 then [] else [Notif.disconnected common.hash common.height])
 
 theorem ListenerOk.mono {t : Tree} {best : Hdr} {m m' : Nat} (h : m ≤ m') {bl : Hdr × Locator}
-    {p : Option Hdr × List Notif} (hl : ListenerOk t best m bl p) : ListenerOk t best m' bl p := by
+    {p : List Nat × List Notif} (hl : ListenerOk t best m bl p) : ListenerOk t best m' bl p := by
   obtain ⟨common, dconn, h1, h2, h3, h4, h5⟩ := hl
   exact ⟨common, dconn, h1, h2, h3, by omega, h5⟩
 
-theorem initDisconnects_eq (a : Hdr) (h : Nat) : initDisconnects a h = (a.hash != h) := by
-  by_cases e : a.hash = h <;> simp [initDisconnects, e]
+/-- The translated per-listener body of the first loop of init.rs synchronize_listeners (Generated/ChainSync.lean,
+    regenerated from the Rust statements on every run) does, for EVERY difference — nothing to connect or
+    not, listener ahead of / behind / beside the source tip —: disconnect to the common ancestor iff that is not the
+    listener's own block, record exactly the common ancestor's height, keep the longer connected list.
+    Everything the start-up theorems say about `phase1` goes through this lemma: an early `continue`, a
+    different recorded height, a dropped or extra disconnect in the Rust text make it false. -/
+theorem initListenerStep_eq (best : Hdr) (oh oht : Nat) (common : Hdr) (conn most : List Hdr) :
+    initListenerStep best oh oht common conn most =
+      ⟨if common.hash != oh then [common] else [], [common.height],
+        if most.length < conn.length then conn else most⟩ := by
+  unfold initListenerStep
+  by_cases h1 : common.hash = oh <;> by_cases h2 : most.length < conn.length <;> simp [h1, h2]
+
+theorem foldl_blocksDisconnected_retain (c : Cache) : ∀ (l : List Hdr),
+    l.foldl (fun c h => cacheBlocksDisconnected c true h) c = c := by
+  intro l
+  induction l with
+  | nil => rfl
+  | cons x l ih => simp only [List.foldl_cons, cacheBlocksDisconnected, if_true]; exact ih
 
 theorem phase1_most_len (s : Source) (best : Hdr) : ∀ (ls : List Locator) (c : Cache) (req : Nat) (most : List Hdr),
     most.length ≤ (phase1 s best ls c req most).most.length := by
@@ -897,15 +914,15 @@ theorem phase1_most_len (s : Source) (best : Hdr) : ∀ (ls : List Locator) (c :
   | cons l ls ih =>
     intro c req most
     unfold phase1
-    simp only [initTakesLonger, decide_eq_true_eq, gt_iff_lt]
+    simp only [initListenerStep_eq, foldl_blocksDisconnected_retain]
     split
     · simp
     · rename_i d c1 req1 _
       simp only
       by_cases hlt : most.length < d.connected.length
-      · have := ih (cacheBlocksDisconnected c1 true d.common) req1 d.connected
+      · have := ih c1 req1 d.connected
         simp only [hlt, if_true]; omega
-      · have := ih (cacheBlocksDisconnected c1 true d.common) req1 most
+      · have := ih c1 req1 most
         simp only [hlt, if_false]; exact this
 
 theorem phase1_spec {s : Source} (hw : wfTree s.tree = true) {best : Hdr} (hb : InTree s.tree best) :
@@ -926,7 +943,7 @@ theorem phase1_spec {s : Source} (hw : wfTree s.tree = true) {best : Hdr} (hb : 
     obtain ⟨hbt, hlh, hcands⟩ := hl (b, l) List.mem_cons_self
     simp only [List.map_cons] at hok ⊢
     unfold phase1 at hok ⊢
-    simp only [initTakesLonger, decide_eq_true_eq, gt_iff_lt, initDisconnects_eq] at hok ⊢
+    simp only [initListenerStep_eq, foldl_blocksDisconnected_retain] at hok ⊢
     split at hok
     · simp at hok
     · rename_i d c1 req1 hfd
@@ -948,10 +965,10 @@ theorem phase1_spec {s : Source} (hw : wfTree s.tree = true) {best : Hdr} (hb : 
             split
             · exact ⟨d.common, hL.path⟩
             · exact hm
-          obtain ⟨i1, i2, i3⟩ := ih (cacheBlocksDisconnected c1 true d.common) req1
+          obtain ⟨i1, i2, i3⟩ := ih c1 req1
             (if most.length < d.connected.length then d.connected else most)
-            (fun p hp => hl p (List.mem_cons_of_mem _ hp)) (cacheOk_blocksDisconnected hc1 _ _) hmost' hok
-          have hlen := phase1_most_len s best (pairs.map (·.2)) (cacheBlocksDisconnected c1 true d.common) req1
+            (fun p hp => hl p (List.mem_cons_of_mem _ hp)) hc1 hmost' hok
+          have hlen := phase1_most_len s best (pairs.map (·.2)) c1 req1
             (if most.length < d.connected.length then d.connected else most)
           refine ⟨Forall2.cons ?_ i1, i2, i3⟩
           refine ⟨d.common, d.connected, rfl, hct, hL.path, ?_, ?_, hcb, ?_⟩
@@ -964,7 +981,7 @@ theorem phase1_spec {s : Source} (hw : wfTree s.tree = true) {best : Hdr} (hb : 
               simp [hh, applyNotifs]
             · have hne : d.common ≠ b := by intro e; rw [e] at hh; exact hh hlh.symm
               have : (d.common.hash != l.hash) = true := by simp [bne, hh]
-              simp only [this, if_true, applyNotifs, apply_disconnected hw hbt hcb hne]
+              simp only [this, if_true, List.map_cons, List.map_nil, discNotif, disconnectLocator, applyNotifs, apply_disconnected hw hbt hcb hne]
           · by_cases hh : d.common.hash = l.hash
             · have : d.common = b := inTree_hash_inj hct hbt (by rw [hh, hlh])
               have hbe : (d.common.hash != l.hash) = false := by simp [hh]
@@ -972,7 +989,7 @@ theorem phase1_spec {s : Source} (hw : wfTree s.tree = true) {best : Hdr} (hb : 
               simp [this]
             · have hne : d.common ≠ b := by intro e; rw [e] at hh; exact hh hlh.symm
               have : (d.common.hash != l.hash) = true := by simp [bne, hh]
-              simp only [this, if_true, hne, if_false]
+              simp only [this, if_true, hne, if_false, List.map_cons, List.map_nil, discNotif, disconnectLocator]
 
 theorem fetchAll_spec (s : Source) : ∀ (bs : List Hdr) (req : Nat), (fetchAll s bs req).2 = req + bs.length := by
   intro bs
@@ -1122,5 +1139,106 @@ theorem fetchPrefix_le (s : Source) : ∀ (bs : List Hdr) (req : Nat), fetchPref
     split
     · have := ih (req + 1); simp only [List.length_cons]; omega
     · omega
+
+/-! ### start-up sync under ANY outcome (Ok or Err at any request) -/
+
+theorem forall2_map_const {α β γ : Type} {R : α → β → Prop} (c : β) : ∀ (l1 : List α) (l2 : List γ),
+    l1.length = l2.length → (∀ a ∈ l1, R a c) → Forall2 R l1 (l2.map (fun _ => c)) := by
+  intro l1
+  induction l1 with
+  | nil => intro l2 hlen _; cases l2 with
+    | nil => exact Forall2.nil
+    | cons _ _ => simp at hlen
+  | cons a l1 ih => intro l2 hlen h; cases l2 with
+    | nil => simp at hlen
+    | cons b l2 =>
+      simp only [List.map_cons]
+      exact Forall2.cons (h a List.mem_cons_self) (ih l2 (by simpa using hlen) (fun x hx => h x (List.mem_cons_of_mem _ hx)))
+
+/-- whatever happens in the first loop (also when a later listener's `?` returns `Err`), what each listener was told
+    so far is a valid rewind of its own chain -/
+theorem phase1_notifs_valid {s : Source} (hw : wfTree s.tree = true) {best : Hdr} (hb : InTree s.tree best) :
+    ∀ (pairs : List (Hdr × Locator)) (c : Cache) (req : Nat) (most : List Hdr),
+      (∀ p ∈ pairs, LocatorOk s.tree p.2 p.1) → CacheOk s.tree c →
+      Forall2 (fun bl p => ∃ x, applyNotifs s.tree (anc s.tree bl.1) p.2 = some (anc s.tree x)) pairs
+        (phase1 s best (pairs.map (·.2)) c req most).per := by
+  intro pairs
+  induction pairs with
+  | nil => intro c req most _ _; simp only [List.map_nil, phase1]; exact Forall2.nil
+  | cons bl pairs ih =>
+    intro c req most hl hc
+    rcases bl with ⟨b, l⟩
+    obtain ⟨hbt, hlh, hcands⟩ := hl (b, l) List.mem_cons_self
+    simp only [List.map_cons]
+    unfold phase1
+    simp only [initListenerStep_eq, foldl_blocksDisconnected_retain]
+    split
+    · simp only
+      exact forall2_map_const _ _ _ (by simp) (fun a _ => ⟨a.1, by simp [applyNotifs]⟩)
+    · rename_i d c1 req1 hfd
+      simp only
+      unfold findDiffFromBestBlock at hfd
+      split at hfd
+      · cases hfd
+      · rename_i found c1' req0 hres
+        split at hfd
+        · cases hfd
+        · rename_i d' req2 hdiff
+          cases hfd
+          obtain ⟨hfa, hft, hc1⟩ := resolveLocator_spec hw l.height l.candidates c req found c1 req0 hc hcands hres
+          have hL := findDiff_spec hw hc1 hb hft hdiff
+          have hct : InTree s.tree d.common := anc_inTree hw hb hL.onCur
+          have hcb : d.common ∈ anc s.tree b := anc_trans hw hbt hfa hL.onPrev
+          refine Forall2.cons ?_ (ih c1 req1 _ (fun p hp => hl p (List.mem_cons_of_mem _ hp)) hc1)
+          by_cases hh : d.common.hash = l.hash
+          · exact ⟨b, by simp [hh, applyNotifs]⟩
+          · have hne : d.common ≠ b := by intro e; rw [e] at hh; exact hh hlh.symm
+            have : (d.common.hash != l.hash) = true := by simp [bne, hh]
+            exact ⟨d.common, by simp only [this, if_true, List.map_cons, List.map_nil, discNotif, disconnectLocator, applyNotifs, apply_disconnected hw hbt hcb hne]⟩
+
+/-- the batched second loop delivers a PREFIX of the ascending list, whether it succeeds or stops at a failed batch -/
+theorem phase2_prefix (s : Source) (k : Nat) : ∀ (n : Nat) (asc : List Hdr) (c : Cache) (req : Nat),
+    ∃ rest, asc = (phase2 s k n asc c req).2.2.2 ++ rest := by
+  intro n
+  induction n with
+  | zero => intro asc c req; exact ⟨asc, by simp [phase2]⟩
+  | succ n ih =>
+    intro asc c req
+    unfold phase2
+    by_cases he : asc.isEmpty = true
+    · simp only [he, if_true]; exact ⟨asc, by simp⟩
+    · simp only [he, Bool.false_eq_true, if_false]
+      cases hf : (fetchAll s (asc.take k) req).1 with
+      | false => simp only [Bool.not_false, if_true]; exact ⟨asc, by simp⟩
+      | true =>
+        simp only [Bool.not_true, Bool.false_eq_true, if_false]
+        obtain ⟨rest, hr⟩ := ih (asc.drop k) ((asc.take k).foldl cacheBlockConnected c) (fetchAll s (asc.take k) req).2
+        refine ⟨rest, ?_⟩
+        rw [List.append_assoc, ← hr, List.take_append_drop]
+
+theorem connectedFor_append (lh : Nat) (a b : List Hdr) :
+    connectedFor lh (a ++ b) = connectedFor lh a ++ connectedFor lh b := by
+  simp [connectedFor]
+
+/-- a delivered PREFIX of the longest connected list, filtered for one listener, extends that listener's chain from
+    its common ancestor block by block (to some block of the best chain) -/
+theorem connectedFor_prefix_valid {t : Tree} (hw : wfTree t = true) {best common cm : Hdr} (hb : InTree t best)
+    {dconn most pre rest : List Hdr} (h1 : anc t best = dconn ++ anc t common) (h2 : anc t best = most ++ anc t cm)
+    (hct : InTree t common) (hlen : dconn.length ≤ most.length) (hpre : most.reverse = pre ++ rest) :
+    ∃ x, applyNotifs t (anc t common) (connectedFor common.height pre) = some (anc t x) := by
+  have hfull := connectedFor_most hw hb h1 h2 hct hlen
+  rw [hpre, connectedFor_append] at hfull
+  have htake : connectedFor common.height pre = (dconn.reverse.take (connectedFor common.height pre).length).map connNotif := by
+    rw [List.map_take, ← hfull, List.take_left' rfl]
+  generalize (connectedFor common.height pre).length = k at htake
+  rw [htake]
+  have e : anc t best = (dconn.reverse.take k ++ dconn.reverse.drop k).reverse ++ anc t common := by
+    rw [List.take_append_drop, List.reverse_reverse]; exact h1
+  obtain ⟨e1, e2⟩ := anc_lastOr hw hb (dconn.reverse.take k) (dconn.reverse.drop k) e
+  have hin : InTree t (lastOr common (dconn.reverse.take k)) := by
+    apply anc_inTree hw hb
+    obtain ⟨r, hr⟩ := anc_head t (lastOr common (dconn.reverse.take k))
+    rw [e1, hr]; simp
+  exact ⟨_, apply_connect_path hw hin (dconn.reverse.take k) common e2⟩
 
 end Ldk.ChainSync
